@@ -195,6 +195,30 @@ Fixpoint pieces_eqb (a b : list piece) : bool :=
 Definition same_tokenisation (ps : list piece) : bool := pieces_eqb (norm (tokenise (flatten ps))) (norm ps).
 
 
+(* ---- the two reports, token-wise (specification side; theorems in Reports.v)
+   unused: the declared substitutable references none of whose spellings is a token of the arguments;
+   unresolved: some reference token of the arguments denotes no declared reference *)
+Definition used_by (r : dref) (ps : list piece) : bool := has_tok (r_abs r) ps || has_tok (r_rel r) ps.
+Definition spec_unused (refs : list dref) (ps : list piece) : list string :=
+  map r_abs (filter (fun r => r_sub r && negb (used_by r ps)) refs).
+Definition declared (refs : list dref) (t : string) : bool := existsb (fun r => denotes r t) refs.
+Definition undeclared_tok (refs : list dref) (p : piece) : bool :=
+  match p with Tok t => negb (declared refs t) | Lit _ => false end.
+Definition spec_unresolved (refs : list dref) (ps : list piece) : bool := existsb (undeclared_tok refs) ps.
+
+(* no token is a spelling of two different declared references *)
+Definition disjointb (refs : list dref) (ps : list piece) : bool :=
+  forallb (fun p => match p with
+                    | Lit _ => true
+                    | Tok t => forallb (fun r => forallb (fun r' =>
+                                 negb (denotes r t && denotes r' t) || dref_eqb r r') refs) refs
+                    end) ps.
+(* every colon of the command line is the colon of a reference token: literal text and substituted
+   values hold no colon, every token holds ":<method>" *)
+Definition colon_freeb (refs : list dref) (ps : list piece) : bool :=
+  forallb (fun p => match p with Lit s => negb (occurs ":" s) | Tok t => unresolved t end) ps &&
+  forallb (fun r => negb (r_sub r) || negb (occurs ":" (r_val r))) refs.
+
 (* ---- correspondence checker: case = ((refs, pieces), ((resolved, unused), unresolved?)) *)
 Fixpoint list_eqb (a b : list string) : bool :=
   match a, b with
@@ -210,8 +234,12 @@ Definition check_case (c : (list dref * list piece) * ((string * list string) * 
   String.eqb (fst res) out && list_eqb (snd res) unused && Bool.eqb (unresolved (fst res)) unres &&
   (* the pieces are the tokenisation the code's recogniser makes of the string *)
   same_tokenisation ps &&
-  (* where the hypotheses of C10_exact hold the implementation must agree with the specification *)
-  (negb (separatedb refs ps) || String.eqb out (spec refs ps)).
+  (* where the hypotheses of C10_exact hold the implementation must agree with the specification;
+     where those of C10_unused / C10_unresolved hold, its two reports with the token-wise ones *)
+  (let sep := separatedb refs ps in
+   (negb sep || String.eqb out (spec refs ps)) &&
+   (negb (sep && disjointb refs ps) || list_eqb unused (spec_unused refs ps)) &&
+   (negb (sep && colon_freeb refs ps) || Bool.eqb unres (spec_unresolved refs ps))).
 
 (* is the case inside the hypotheses of the theorems? (statistics of the run) *)
 Definition in_scope (c : (list dref * list piece) * ((string * list string) * bool)) : bool :=
